@@ -124,16 +124,21 @@ impl Tap {
         for s in singles {
             set.insert(s);
         }
-        for _ in 0..marks.len().min(4) {
-            let cur: Vec<String> = set.iter().cloned().collect();
-            for s in cur {
-                for m in &marks {
-                    if set.len() > 4000 {
-                        break;
-                    }
-                    let mut t: String = s.nfc().collect();
+        // The marks applied to one cell are a contiguous run of the marks of this text, in order, and every
+        // application is "normalise what is there, append the mark": follow exactly those chains from every
+        // text a cell can hold at that moment (a fixed closure depth missed runs of five and more marks).
+        let bases: Vec<String> = set.iter().cloned().collect();
+        'chains: for b in bases {
+            for i in 0..marks.len() {
+                let mut cur = b.clone();
+                for m in &marks[i..] {
+                    let mut t: String = cur.nfc().collect();
                     t.push(*m);
-                    set.insert(t);
+                    set.insert(t.clone());
+                    cur = t;
+                    if set.len() > 50000 {
+                        break 'chains;
+                    }
                 }
             }
         }
